@@ -1354,6 +1354,8 @@ func (sc *serverConn) handleHeaderFrame(strm *Stream, fr *FrameHeader) error {
 		}
 
 		strm.headersFinished = false
+		// Pseudo-header fields must not appear in trailers (RFC 7540 8.1.2.1).
+		strm.regularSeen = true
 	}
 
 	if headerFrame, ok := fr.Body().(*Headers); ok && headerFrame.Stream() == strm.ID() {
@@ -1495,6 +1497,12 @@ func (sc *serverConn) handleHeaderFrame(strm *Stream, fr *FrameHeader) error {
 
 			if sc.maxRequestBodySize > 0 && n > sc.maxRequestBodySize {
 				return sc.failHeaderBlock(strm, fr, b, NewResetStreamError(EnhanceYourCalm, "request body is too large"))
+			}
+
+			// Two lengths that disagree: whichever one the next hop believes,
+			// the other is a way to smuggle a request past it.
+			if strm.hasContentLength && n != strm.contentLength {
+				return sc.failHeaderBlock(strm, fr, b, NewResetStreamError(ProtocolError, "conflicting content-length fields"))
 			}
 
 			strm.contentLength = n
